@@ -416,14 +416,14 @@ fn fold_views(d: &Data, k: usize, log: &Log) -> Result<Vec<FoldView>, String> {
             let seen_any = ids.iter().any(|i| train.contains(i));
             let seen_all = ids.iter().all(|i| train.contains(i));
             if seen_any && !seen_all {
-                return Err(format!("fold {}: a predict call mixes training rows and unseen rows: {:?}", j, ids));
+                return Err(format!("fold {}: leak: the model fitted on rows {:?} was asked to predict a batch mixing rows it has seen with unseen ones: {:?}", j, train, ids));
             }
             if !seen_any {
                 held.push((ids, preds.clone()));
             }
         }
         if held.len() != 1 {
-            return Err(format!("fold {}: model was asked {} times to predict held-out rows (expected once)", j, held.len()));
+            return Err(format!("fold {}: the model fitted on rows {:?} was asked {} times to predict rows it has not seen (expected exactly once, for its held-out fold)", j, train, held.len()));
         }
         let (test, test_preds) = held.pop().unwrap();
         views.push(FoldView { train: train.clone(), test, test_preds, h: train_hash(rows, ys) });
@@ -678,17 +678,36 @@ fn replay(path: &str) -> i32 {
             check_tts(&mut out, &d, ts, shuffle, draws, "replay");
         }
         "tts_big" => {
-            // n too large to store in the replay: rows [i, i mod 97], targets i mod 89
+            // n too large to store in the replay: one column holding the row's own index, targets i mod 89
             let n = inp["n"].as_u64().unwrap() as usize;
             let ts = f32::from_bits(inp["ts_bits"].as_u64().unwrap() as u32);
-            let d = Data { x: (0..n).map(|i| vec![i as f64, (i % 97) as f64]).collect(), y: (0..n).map(|i| (i % 89) as f64).collect() };
-            match run_tts(&d, ts, shuffle) {
-                Err(m) => out.fail("tts_permutation", &format!("panic: {}", m), inp.clone()),
-                Ok(r) => {
-                    if let Err(w) = oracle_tts(&d, ts, shuffle, &r) {
-                        out.fail("tts_permutation", &w, inp.clone());
+            let res = guard(|| {
+                let mut x: DenseMatrix<f64> = DenseMatrix::zeros(n, 1);
+                for i in 0..n {
+                    x.set(i, 0, i as f64);
+                }
+                let y: Vec<f64> = (0..n).map(|i| (i % 89) as f64).collect();
+                let (xtr, xte, ytr, yte) = train_test_split(&x, &y, ts, shuffle);
+                let mut seen = vec![false; n];
+                let mut ok = xte.shape().0 == n_test_spec(n, ts) && xtr.shape().0 + xte.shape().0 == n;
+                for (m, yv) in [(&xtr, &ytr), (&xte, &yte)] {
+                    for r in 0..m.shape().0 {
+                        let id = m.get(r, 0) as usize;
+                        ok &= id < n && !seen[id] && yv[r] == (id % 89) as f64;
+                        if id < n {
+                            seen[id] = true;
+                        }
                     }
                 }
+                ok
+            });
+            match res {
+                Err(m) => {
+                    println!("REPLAY: train_test_split(n = {}, test_size = {}) panicked: {}", n, ts, m);
+                    out.fail("tts_permutation", &format!("panic on test_size in (0,1] with n_test >= 1: {}", m), inp.clone())
+                }
+                Ok(false) => out.fail("tts_permutation", "parts are not a disjoint cover with attached targets / wrong size", inp.clone()),
+                Ok(true) => {}
             }
         }
         "cv" | "cvp" => {
@@ -734,14 +753,14 @@ fn main() {
 
     // ================= correspondence =================
     // split, unshuffled: exhaustive 1 <= n <= N0, 0 <= k <= n+2 (k < 2 panics, k > n gives empty folds)
-    let n0 = if t { 40 } else { 16 };
+    let n0 = if t { 64 } else { 16 };
     for n in 1..=n0 {
         for k in 0..=(n + 2) {
             corr_split(&mut out, n, k, false);
         }
     }
     // larger n up to the quantifier's bound, random k
-    for _ in 0..(if t { 300 } else { 40 }) {
+    for _ in 0..(if t { 0 } else { 40 }) {
         let n = rng.usize_in(n0 + 1, 64);
         let k = rng.usize_in(2, n);
         corr_split(&mut out, n, k, false);
@@ -756,7 +775,7 @@ fn main() {
         }
     }
     // train_test_split
-    for i in 0..(if t { 700 } else { 100 }) {
+    for i in 0..(if t { 900 } else { 160 }) {
         let n = rng.usize_in(1, if i % 4 == 0 { 64 } else { 20 });
         let d = gen_data(&mut rng, n);
         let (ts, y_len) = match rng.below(12) {
@@ -806,23 +825,23 @@ fn main() {
     }
     out.sample(json!({"entry": "split", "n": 34, "k": 3, "shuffle": false, "folds": run_split(7, 3, false).ok()}));
     // shuffled: repeated draws; exhaustive (n, k) up to 24 / 64, random beyond
-    let ns = if t { 64 } else { 24 };
+    let ns = if t { 64 } else { 40 };
     for n in 2..=ns {
         for k in 2..=n {
             check_split(&mut out, n, k, true, if t { 8 } else { 6 }, "exhaustive");
         }
     }
-    for _ in 0..(if t { 3000 } else { 300 }) {
-        let n = rng.usize_in(2, if t { 400 } else { 100 });
+    for _ in 0..(if t { 10000 } else { 1500 }) {
+        let n = rng.usize_in(2, if t { 400 } else { 128 });
         let k = rng.usize_in(2, n);
         let sh = rng.bool();
         check_split(&mut out, n, k, sh, if sh { 6 } else { 1 }, "random");
     }
     // train_test_split: every n up to 64 (quick) / 200 (thorough) with several test sizes
-    let nt = if t { 200 } else { 64 };
+    let nt = if t { 300 } else { 100 };
     for n in 1..=nt {
         let d = gen_data(&mut rng, n);
-        for r in 0..(if t { 24 } else { 10 }) {
+        for r in 0..(if t { 30 } else { 16 }) {
             let ts = gen_ts(&mut rng, n);
             let sh = r % 2 == 1;
             check_tts(&mut out, &d, ts, sh, if sh { 6 } else { 1 }, "all-n");
@@ -831,7 +850,7 @@ fn main() {
             }
         }
     }
-    for _ in 0..(if t { 300 } else { 30 }) {
+    for _ in 0..(if t { 1000 } else { 100 }) {
         let n = rng.usize_in(65, if t { 5000 } else { 1000 });
         let d = gen_data(&mut rng, n);
         let ts = gen_ts(&mut rng, n);
@@ -840,19 +859,19 @@ fn main() {
     }
     // cross-validation with the recording estimator: exhaustive (n, k) up to 20 / 64 unshuffled,
     // every third pair shuffled; random beyond
-    let nc = if t { 64 } else { 20 };
+    let nc = if t { 64 } else { 32 };
     for n in 2..=nc {
         let d = gen_data(&mut rng, n);
         for k in 2..=n {
             check_cv(&mut out, &d, k, false, true, 1, "exhaustive");
             check_cv(&mut out, &d, k, false, false, 1, "exhaustive");
-            if (n + k) % 3 == 0 {
+            if (n + k) % 2 == 0 {
                 check_cv(&mut out, &d, k, true, true, 3, "exhaustive");
                 check_cv(&mut out, &d, k, true, false, 3, "exhaustive");
             }
         }
     }
-    for _ in 0..(if t { 1500 } else { 200 }) {
+    for _ in 0..(if t { 8000 } else { 1000 }) {
         let n = rng.usize_in(2, if t { 150 } else { 64 });
         let kmax = if rng.bool() { n.min(10) } else { n };
         let k = rng.usize_in(2, kmax);
